@@ -118,14 +118,20 @@ func checkC16(r *Run) {
 		r.Check(ok && hp, "C16-R1", "prefixIterator.Next/invalidates-outside-prefix", P.Pos(f.Pos()), "invalidated when the parent key leaves the prefix", "Next no longer invalidates the iterator when the parent key lacks the prefix")
 	}
 	if f := r.fn("(*store/prefix.prefixIterator).Valid"); f != nil {
-		for _, ret := range Returns(f) {
-			t := P.TermAt(ret.Results[0], ret).String()
-			ok := t == "phi(false, github.com/tendermint/tm-db.Iterator.Valid(param:iter.iter))"
-			for _, c := range CallsIn(f, "github.com/tendermint/tm-db.Iterator.Valid") {
-				g, _ := HasAtom(P.Guards(c, 0), `^param:iter\.valid$`)
-				ok = ok && g
+		// however the conjunction is spelled (a && b, or an early `return false`): each alternative is either false,
+		// or the parent's Valid() under iter.valid
+		n := 0
+		for i, a := range P.RetAlternatives(f, 0) {
+			t := a.T.String()
+			g, _ := HasAtom(a.G, `^param:iter\.valid$`)
+			ok := t == "false" || (t == "github.com/tendermint/tm-db.Iterator.Valid(param:iter.iter)" && g)
+			if t != "false" {
+				n++
 			}
-			r.Check(ok, "C16-R1", "prefixIterator.Valid", P.InstrPos(ret), "valid && parent.Valid()", "Valid() is "+t)
+			r.Check(ok, "C16-R1", fmt.Sprintf("prefixIterator.Valid/alternative#%d", i), P.InstrPos(a.Ret), "valid && parent.Valid()", "Valid() is "+t+" under {"+strings.Join(atomStrings(a.G), " ; ")+"}")
+		}
+		if n == 0 {
+			r.Viol("C16-R1", "prefixIterator.Valid/consults-parent", P.Pos(f.Pos()), "Valid() never consults the parent iterator")
 		}
 	}
 	if f := r.fn("store/prefix.stripPrefix"); f != nil {
@@ -357,7 +363,7 @@ func checkC16(r *Run) {
 	if f := r.fn("(*store/types.basicGasMeter).IsOutOfGas"); f != nil {
 		for _, ret := range Returns(f) {
 			t := P.TermAt(ret.Results[0], ret).String()
-			r.Check(t == "(param:g.consumed >= param:g.limit)", "C16-R3", "IsOutOfGas", P.InstrPos(ret), t, "IsOutOfGas is "+t)
+			r.Check(t == "(param:g.limit <= param:g.consumed)", "C16-R3", "IsOutOfGas", P.InstrPos(ret), t, "IsOutOfGas is "+t)
 		}
 	}
 
